@@ -304,15 +304,22 @@ class Index:
       r = self.resolve_dotted(full, _depth + 1)
       return r
     if head in mod.globals:
+      # module-level alias: `DNAGenerator = geno.DNAGenerator`
+      val = mod.globals[head]
+      d = A.dotted(val) if isinstance(val, (ast.Name, ast.Attribute)) else None
+      if d is not None and d.split('.')[0] != head:
+        r = self.resolve_in_module(mod, d + ('.' + tail if tail else ''), _depth + 1)
+        if r is not None:
+          return r
       return f'{mod.name}.{rest}'
     return None
 
-  def resolve_in_module(self, module: Module, expr_name: str) -> Optional[str]:
+  def resolve_in_module(self, module: Module, expr_name: str, _depth: int = 0) -> Optional[str]:
     """Resolve a dotted expression as written inside `module`."""
     head, _, tail = expr_name.partition('.')
     if head in module.imports:
       full = module.imports[head] + ('.' + tail if tail else '')
-      r = self.resolve_dotted(full)
+      r = self.resolve_dotted(full, _depth)
       return r if r is not None else full
     if head in module.classes or head in module.funcs or head in module.globals:
       return f'{module.name}.{expr_name}'
